@@ -73,6 +73,9 @@ def binary_programs(tier, hi):
         (("slice", ("sort", ("leaf", "Z"), ((A, False), (D, True))), "$sr", "$er"), {"$sr": [0, hi], "$er": [0, hi]}, [["$sr", "$er"]]),
         (("proj", ("dedup", ("leaf", "Y")), ("a",)), {}, []),
         (("dedup", ("proj", ("leaf", "Y"), ("a", "v"))), {}, []),
+        # the EXISTS idiom: a possibly empty zero-column relation with at most one row
+        (("dedup", ("proj", ("leaf", "Y"), ())), {}, []),
+        (("dedup", ("proj", ("sel", ("leaf", "Y"), ("gt", A, ("lit", "$kr"))), ())), {"$kr": [None, None]}, []),
     ]
     rhs_chain = _variants("Y", OPS1, 1, hi, "r") + [
         (("slice", ("sort", ("leaf", "Y"), ((A, True), (B, False), (V, True))), "$sr", "$er"), {"$sr": [0, hi], "$er": [0, hi]}, [["$sr", "$er"]])]
